@@ -109,3 +109,10 @@ Lemma call_direct_write_guard c amount :
   | None => Err BodyIsChunked
   end.
 Proof. unfold call_direct_write. destruct (left_to_send (c_writer c)); [rewrite ?gen_direct_overshoot_spec|]; reflexivity. Qed.
+
+(** The conversion of the remaining declared length (a u64) to a buffer length: the identity below 2^64 (a truncating cast,
+    `as u32`, is not). *)
+Lemma gen_sized_left_usize_spec l : l < 18446744073709551616 -> gen_sized_left_usize l = l.
+Proof. intros H. unfold gen_sized_left_usize. repeat (try lia; match goal with |- context [if ?c then _ else _] => destruct c eqn:? end); lia. Qed.
+Lemma gen_read_left_usize_spec l : l < 18446744073709551616 -> gen_read_left_usize l = l.
+Proof. intros H. unfold gen_read_left_usize. repeat (try lia; match goal with |- context [if ?c then _ else _] => destruct c eqn:? end); lia. Qed.
